@@ -54,10 +54,10 @@ def aes_part(chk, rng):
         for a in a_values:
             window = flat[a:a + nk].reshape(-1)
             for b in range(0, total + 1):
-                out = scared.aes.key_expansion(window.copy(), col_in=a, col_out=b)
+                out = scared.aes.key_expansion(window.astype(['uint8', 'int32', '>u2', 'int64'][(a + b) % 4]), col_in=a, col_out=b)
                 recorded.append({'k': ki + 1, 'a': a, 'b': b, 'out': [int(x) for x in np.asarray(out).reshape(-1)], 'what': 'key_expansion'})
                 scribble(out)
-        ks = np.asarray(scared.aes.key_schedule(np.array(key, dtype='uint8')))
+        ks = np.asarray(scared.aes.key_schedule(np.array(key, dtype=['uint8', 'int16', '>u4', 'int64'][ki % 4])))
         recorded.append({'k': ki + 1, 'a': 0, 'b': total, 'out': [int(x) for x in ks.reshape(-1)], 'what': 'key_schedule', 'shape': list(ks.shape)})
         scribble(ks)
         if nk == 4:
@@ -122,7 +122,7 @@ def des_part(chk, rng):
         raise tlc.TLCError(f'DESKeys violates {r.violated}')
     rk = {e['k'] - 1: e['rk'] for e in r.emits()}
     for ki, key in enumerate(keys):
-        k = np.array(key, dtype='uint8')
+        k = np.array(key, dtype=['uint8', 'int64', 'uint16', '>u4', 'int16'][ki % 5])          # the key bytes, whatever integer type carries them
         for i in (range(16) if ki < 70 else [rng.randint(0, 15), 15]):
             got = np.asarray(scared.des.key_schedule(k, interrupt_after_round=i))
             chk.count(('des', ki, i), nontrivial=True)
@@ -131,10 +131,16 @@ def des_part(chk, rng):
                               f'des.key_schedule({key}, interrupt_after_round={i})')
             scribble(got)
         chk.traces_validated += 1
-    batch = np.array(keys[3:9], dtype='uint8')
-    gb = np.asarray(scared.des.key_schedule(batch))
-    if gb.tolist() != [rk[i] for i in range(3, 9)]:
-        chk.violation('des.key_schedule:key batches', {'property': 'C10', 'part': 'des', 'keys': batch.tolist()}, 'des.key_schedule on a batch of keys')
+    # batches of keys: fewer and more than 16 keys (the round axis has 16 entries), every interruption point; one row per key, in order
+    for lo, hi in ((3, 9), (2, 3), (0, 17), (1, min(len(keys), 41))):
+        batch = np.array(keys[lo:hi], dtype='uint8')
+        for i in ([15, 0, 3, 14] if hi - lo > 1 else [15, 0]):
+            gb = np.asarray(scared.des.key_schedule(batch) if i == 15 else scared.des.key_schedule(batch, interrupt_after_round=i))
+            chk.count(('des-batch', lo, hi, i), nontrivial=True)
+            if gb.tolist() != [rk[j][:i + 1] for j in range(lo, hi)]:
+                chk.violation('des.key_schedule:key batches', {'property': 'C10', 'part': 'des', 'keys': batch.tolist(), 'interrupt_after_round': i, 'got_shape': list(gb.shape)},
+                              f'des.key_schedule on a batch of {hi - lo} keys, interrupt_after_round={i}: shape {gb.shape}')
+            scribble(gb)
     # get_master_key from every round key
     recovered = []
     nm = 2 if q else 12
